@@ -520,17 +520,21 @@ impl SvgElement {
     ///
     /// Implemented as a method rather than a `From` impl to keep private
     fn into_bytesstart(self) -> BytesStart<'static> {
+        // Attribute values are held unescaped; re-escape the characters which
+        // cannot appear literally in a double-quoted attribute value.
+        fn escape_attr(v: &str) -> String {
+            v.replace('&', "&amp;")
+                .replace('<', "&lt;")
+                .replace('"', "&quot;")
+        }
         let mut bs = BytesStart::new(self.name);
         for (k, v) in &self.attrs {
-            bs.push_attribute(Attribute::from((k.as_bytes(), v.as_bytes())));
+            bs.push_attribute(Attribute::from((k.as_bytes(), escape_attr(v).as_bytes())));
         }
         if !self.classes.is_empty() {
             bs.push_attribute(Attribute::from((
                 "class".as_bytes(),
-                self.classes
-                    .into_iter()
-                    .collect::<Vec<String>>()
-                    .join(" ")
+                escape_attr(&self.classes.into_iter().collect::<Vec<String>>().join(" "))
                     .as_bytes(),
             )));
         }
